@@ -30,6 +30,8 @@ Families
      or tag before it and something after it, and blocks whose tag line is spelled unusually (blank / tab /
      NBSP inside two-word tag names, any letter case, Unicode case-fold look-alikes): parsed, not lost,
      parameters / tags kept, round trip stable (for odd spellings: block, name and parameters survive)
+  T  "nested tags": continuation lines of parameter / block / tag descriptions that begin with a tag word
+     and a colon, indented deeper than (text), equal to or shallower than (tag) the part they follow
   B  every model built from an identifier menu x <=2 parameters x description menu x <=2 tags,
      under a covering set of layouts (quick) / a larger product (thorough)
 """
@@ -437,6 +439,58 @@ def _work_D(chunk):
     return part.result()
 
 
+# ----------------------------------------------------- family T (nested tags) ---
+def check_nested(lines, exp, lay):
+    text = B.decorate(lines, lay)
+    ref = B.ref_parse(text)
+    if ref != exp:
+        raise HarnessBroken('nested-tag expectation disagrees with the reference reader:\n%s\nref=%s\nexp=%s' % (
+            text, json.dumps(ref), json.dumps(exp)))
+    info = {'text': text, 'expected': exp}
+    block, recs, exc = B.parse(text)
+    evals = 1
+    if exc is not None or block is None:
+        return [('none', 'block not parsed: %s %r' % (exc, [r['text'] for r in recs]), info)], evals, None
+    raw = B.abstract(block)
+    problems = []
+    if raw != exp:
+        problems.append(('tree', 'parsed tree differs from the model: %s' % _diff(exp, raw), dict(info, observed=raw)))
+    if recs:
+        problems.append(('diag', 'diagnostic on a well-formed block: %r' % ([r['text'] for r in recs][:3],), info))
+    for indent in (True, False):
+        w = B.write(block, indent)
+        b2, recs2, exc2 = B.parse(w[:-1] if w.endswith('\n') else w)
+        evals += 1
+        v2 = B.abstract(b2)
+        if exc2 is not None or v2 != raw:
+            problems.append(('roundtrip', 'write(indent=%s) then parse gives a different block: %s' % (
+                indent, exc2 or _diff(raw, v2)), dict(info, written=w)))
+    return problems, evals, raw
+
+
+def nested_layouts():
+    return list(B.all_layouts(['indent', 'eol'])) + [dict(B.DEFAULT_LAYOUT, end='**/')]
+
+
+def _work_T(chunk):
+    part = Part()
+    lays = nested_layouts()
+    for i, (lines, exp) in chunk:
+        part.add(states=1)
+        part.nontrivial('T:%d' % i)
+        for li, lay in enumerate(lays):
+            problems, evals, got = check_nested(lines, exp, lay)
+            part.add(transitions=1, evaluations=evals, traces_validated_against_impl=1)
+            if got is not None:
+                part.outcome(stable_hash(got)[:12])
+            for kind, desc, extra in problems:
+                part.violation('%s:T:%d:%d' % (kind, i, li), desc, {'family': 'T', 'lines': lines, 'expected': exp,
+                                                                   'layout': lay})
+        if i % 40 == 0:
+            part.sample({'family': 'T', 'comment': B.decorate(lines, lays[0])})
+    return part.result()
+
+
 # -------------------------------------------------------------- calibration ---
 def calibrate():
     cs = B.corpus()
@@ -501,6 +555,11 @@ def run(ctx):
             bounds=bounds)
     for r in pmap(_work, rotate(chunks, ctx.seed)):
         ctx.merge(r)
+    if not only or 'T' in only:
+        T = list(enumerate(B.nested_tag_cases()))
+        ctx.cov['bounds']['family_T'] = {'cases': len(T), 'layouts_per_case': len(nested_layouts())}
+        for r in pmap(_work_T, rotate([T[i::16] for i in range(16) if T[i::16]], ctx.seed)):
+            ctx.merge(r)
     if not only or 'D' in only:
         D = list(enumerate(B.deprecated_tag_blocks() + B.odd_tag_blocks()))
         ctx.cov['bounds']['family_D'] = {'texts': len(D)}
@@ -519,6 +578,14 @@ def run(ctx):
 
 
 def replay(ctx, case):
+    if case.get('family') == 'T':
+        print(B.decorate(case['lines'], case['layout']))
+        problems, evals, got = check_nested(case['lines'], case['expected'], case['layout'])
+        print('expected:', json.dumps(case['expected']))
+        print('observed:', json.dumps(got))
+        for kind, desc, extra in problems:
+            print('%s: %s' % (kind, desc))
+        return not problems
     if case.get('family') == 'D':
         print(case['text'])
         problems, evals, got = check_deprecated(case['text'], case['info'])
